@@ -96,7 +96,9 @@ func allMethods() []methodSpec {
 		{name: "LBFGS", local: true, grad: true, usesLS: true, wolfe: true, tasks: one,
 			mk: func(ls optimize.Linesearcher, o *objective) optimize.Method { return &optimize.LBFGS{Linesearcher: ls} }},
 		{name: "Newton", local: true, grad: true, hess: true, usesLS: true, tasks: one,
-			mk: func(ls optimize.Linesearcher, o *objective) optimize.Method { return &optimize.Newton{Linesearcher: ls} }},
+			mk: func(ls optimize.Linesearcher, o *objective) optimize.Method {
+				return &optimize.Newton{Linesearcher: ls}
+			}},
 		{name: "NelderMead", local: true, tasks: one,
 			mk: func(ls optimize.Linesearcher, o *objective) optimize.Method { return &optimize.NelderMead{} }},
 		{name: "CmaEsChol", tasks: func(c int, o *objective) int { return min(c, cmaPop) },
@@ -207,11 +209,11 @@ type ptLog struct {
 
 type recEntry struct {
 	failed bool
-	op    optimize.Operation
-	f     float64
-	x     []float64
-	g     []float64
-	stats optimize.Stats
+	op     optimize.Operation
+	f      float64
+	x      []float64
+	g      []float64
+	stats  optimize.Stats
 }
 
 type runLog struct {
@@ -219,8 +221,8 @@ type runLog struct {
 	pts                                    map[string]*ptLog
 	recs                                   []recEntry
 	recFailed                              bool // the recorder returned an error at least once (it keeps failing from the k-th record on)
-	nanStreak                              int // consecutive Func calls at a NaN location
-	sameStreak                             int // consecutive Func calls at one and the same location
+	nanStreak                              int  // consecutive Func calls at a NaN location
+	sameStreak                             int  // consecutive Func calls at one and the same location
 	lastX                                  []float64
 	statusFired                            bool
 	minF                                   float64 // least non-NaN value returned by Func (+Inf if none)
